@@ -409,7 +409,7 @@ def fmt(ctx):
     out, tr = it.run(state)
     if out.kind != 'return' or out.value is None:
         raise AnalysisError('%s: serialize_instance does not return its text' % loc(si))
-    seq = emit.flatten(out.value)
+    seq = emit.flatten(out.value, cond=lambda t_: bool(it.cond(t_, state, [])))
     want = [('lit', 'INSERT INTO '), ('hole', 'xtuml.get_metaclass(%s).kind' % INST), ('lit', ' VALUES (\n    '),
             ('hole', 'serialize_value(getattr(%s, name1), ty1)' % INST), ('lit', ', -- '), ('hole', 'name1'), ('lit', ' : '), ('hole', 'ty1'),
             ('lit', '\n    '), ('hole', 'serialize_value(getattr(%s, name2), ty2)' % INST), ('lit', ' -- '), ('hole', 'name2'), ('lit', ' : '),
